@@ -183,6 +183,10 @@ def run(run, tier, replay):
             gens = {
                 "unsync": pool.submit(_gen, "Gen_SharedFd",
                                       "Gen_SharedFd.cfg" if tier == "quick" else "Gen_SharedFd_thorough.cfg", p_unsync),
+                # quick: all programs <= 8 methods under one waker plus all programs <= 7 methods in which the
+                # pending close future is re-polled with another waker once (two TLC runs side by side);
+                # thorough: one bigger configuration with the migration
+                "unsync_m": pool.submit(_gen, "Gen_SharedFd", "Gen_SharedFd_mig.cfg", p_unsync + ".m"),
                 "file": pool.submit(_gen, "Gen_SharedFd", "Gen_SharedFd_file.cfg", p_file),
                 # quick: every interleaving of two dropping holders and the closer, and of one holder that
                 # drops or calls take() itself and the closer; thorough: two holders with take(), three holders
@@ -226,6 +230,9 @@ def run(run, tier, replay):
             # every single-shot program, a seeded sample of the (many) multishot programs
             counts["prod_replayed"] = _subset(p_prod, p3, 15000, rnd, keep=lambda l: '"class": "multi"' not in l)
             p_prod = p3
+        with open(p_unsync, "a") as f, open(p_unsync + ".m") as g2:
+            if tier == "quick":
+                shutil.copyfileobj(g2, f)
         # one schedule file: droppers, second take, task migration (the closer re-polls with another waker)
         with open(p_sync, "a") as f:
             for extra in (p_sync2, p_sync3):
